@@ -158,6 +158,21 @@ impl<K: KeyT> World<K> {
             if want != out {
                 let p = if kind == "intoiter" { "C17" } else { "C10" };
                 self.fail(p, "iterator-script-mismatch", format!("{kind} script {script} yields {out}, expected {want}"));
+                // C01 (iteration is a lookup path): a pair `(key, string)` in which the string is not the
+                // one that key was minted for
+                if kind != "strings" {
+                    let minted: Vec<String> = self.slots[si].shadow.strs.iter().map(|b| hex(b)).collect();
+                    for item in out.split(';') {
+                        if let Some((k, h)) = item.split_once(':') {
+                            if let Ok(k) = k.parse::<usize>() {
+                                if minted.get(k).map(|m| m.as_str()) != Some(h) {
+                                    self.fail("C01", "iterator-pairs-wrong-string", format!("{kind} script {script} yields key {k} with string {h}, which is not the string minted for that key"));
+                                    break;
+                                }
+                            }
+                        }
+                    }
+                }
             }
         }
         out
